@@ -17,11 +17,11 @@ import (
 
 type marketOrder = market.MsgSell_Order
 type marketUpdate = market.MsgUpdateSellOrders_Update
+type marketBuy = market.MsgBuyDirect_Order
 
 func bioType() *base.CreditType {
 	return &base.CreditType{Abbreviation: "BIO", Name: "biodiversity", Unit: "ha", Precision: 6}
 }
-
 
 // ---------------------------------------------------------------------------------------------
 // 4. basket
